@@ -394,7 +394,8 @@ impl UserRx {
             flushed_packets += 1;
         }
 
-        if flushed_bytes > 0 {
+        // Not flushed_bytes: an EOF marker has no bytes but the reader must see it.
+        if flushed_packets > 0 {
             let waker = self.shared.locked.lock().reader_waker.take();
             if let Some(w) = waker {
                 w.wake();
